@@ -385,6 +385,19 @@ func c01(run *core.Run, replay string) {
 			}
 		}
 	}
+	// 6b. block sizes above the 256 KiB default buffer with hints smaller than one block / than the data
+	for bi, bs := range []uint{512 << 10, 1 << 20, 4 << 20} {
+		for hi, hm := range []string{"tiny", "smaller1", "exact", "larger", "absent"} {
+			for si, size := range []int{300000, 400000, int(bs) - 1, int(bs) + int(bs)/2} {
+				if !run.Thorough() && (bi+hi+si)%2 == 1 && hm != "tiny" && hm != "smaller1" {
+					continue
+				}
+				ws := [][]int{nil, {100000}, {7, 70001}}[(bi+hi+si)%3]
+				add(rtCase{Cfg: kz.Cfg{Transform: []string{"NONE", "LZ", "RLT"}[(bi+si)%3], Entropy: []string{"NONE", "HUFFMAN"}[hi%2], BlockSize: bs, Jobs: []uint{1, 2, 4}[(hi+si)%3], Checksum: cks[(bi+hi)%3]},
+					Shape: []string{"text", "random", "html"}[(bi+hi+si)%3], Size: size, Seed: S + int64(bi*50+hi*7+si), HintMode: hm, DecJobs: decJ[(bi+hi+si)%len(decJ)], WriteSz: ws})
+			}
+		}
+	}
 	if run.Thorough() {
 		// all ordered transform pairs x 6 shapes; all 19x9 codec pairs; big blocks
 		for _, a := range kz.Transforms[1:] {
